@@ -89,30 +89,46 @@ def families(tier):
         patterns(3 if q else 4, T3, H4, (0,)), chunks=2,
         requests=f"1..{3 if q else 4}", shift_capacities_per_tick=["1", "2", "0,1", "0,2", "1,0,2", "2,1", "1,2"],
         service_ticks=[1, 2])
-    fam("Reneging", "Reneging", _grid(conc=[1, 2], patience=[0, 1], cap=[None]),
-        patterns(3, T3, H4, (1,) if q else (1, 2)), chunks=4, requests="1..3", patience_ticks=[0, 1],
+    # waits of 0..4 ticks occur; patience is enumerated below, at and above them
+    fam("Reneging", "Reneging", _grid(conc=[1, 2], patience=[0, 1, 2], cap=[None]),
+        patterns(3, T3, H4, (1,) if q else (1, 2)), chunks=4, requests="1..3", patience_ticks=[0, 1, 2],
         concurrency=[1, 2], service_ticks=[1] if q else [1, 2])
+    fam("Reneging-long-service", "Reneging",
+        [dict(conc=1, patience=1, cap=None), dict(conc=1, patience=3, cap=None), dict(conc=1, patience=1, cap=1)],
+        patterns(3, T3, H4, (3,) if q else (2, 3)), chunks=2, requests="1..3", patience_ticks=[1, 3],
+        concurrency=[1], service_ticks=[3] if q else [2, 3], capacity=["inf", 1],
+        relation="service longer than / equal to patience and longer than the arrival span")
     fam("Balking", "Balking", _grid(conc=[1], thr=[1] if q else [1, 2], cap=[None, 2]),
         patterns(3, T3, H4, (1,), rs=R2), chunks=4, requests="1..3", balk_threshold=[1] if q else [1, 2],
         owned_random_answers=list(R2))
-    fam("Pooled", "Pooled", _grid(conc=[1, 2], svc=[0, 1, 2], cap=[None, 1]),
+    fam("Pooled", "Pooled", _grid(conc=[1, 2], svc=[0, 1, 2, 3], cap=[None, 1]),
         patterns(3 if q else 4, T3, H4, (0,)), chunks=2,
-        requests=f"1..{3 if q else 4}", pool_size=[1, 2], cycle_ticks=[0, 1, 2], queue_capacity=["unlimited", 1])
+        requests=f"1..{3 if q else 4}", pool_size=[1, 2], cycle_ticks=[0, 1, 2, 3], queue_capacity=["unlimited", 1])
     fam("Pooled-burst4", "Pooled", _grid(conc=[1, 2], svc=[0, 1], cap=[None, 1, 2]),
         patterns(4, (0, 1), (0, 1), (0,), n_min=4), chunks=1,
         requests="4", pool_size=[1, 2], cycle_ticks=[0, 1], queue_capacity=["unlimited", 1, 2],
         note="arrival ticks {0,1} x hops {0,1} only")
-    fam("Conveyor", "Conveyor", _grid(conc=[None, 1, 2], svc=[0, 1, 2]),
+    fam("Conveyor", "Conveyor", _grid(conc=[None, 1, 2], svc=[0, 1, 2, 3]),
         patterns(3 if q else 4, T3, H4, (0,)), chunks=2,
-        requests=f"1..{3 if q else 4}", belt_capacity=["unlimited", 1, 2], transit_ticks=[0, 1, 2])
+        requests=f"1..{3 if q else 4}", belt_capacity=["unlimited", 1, 2], transit_ticks=[0, 1, 2, 3],
+        relation="transit shorter than, equal to and longer than the arrival span")
     fam("Gate", "Gate",
         [dict(schedule=s, open0=o, cap=c, ctl_first=f) for s in ([], [(1, 2)], [(2, 3)], [(1, 3)], [(0, 1), (2, 4)])
-         for o in (True, False) for c in (None, 1) for f in ((True, False) if s else (True,))],
+         for o in (True, False) for c in (None, 1) for f in ((True, False) if s else (True,))]
+        # a zero-length window (opens and closes on one instant) in front of a closed gate
+        + [dict(schedule=[(1, 1)], open0=False, cap=c, ctl_first=f) for c in (None, 1) for f in (True, False)],
         patterns(3 if q else 4, T3, H4, (0,)), chunks=2,
-        requests=f"1..{3 if q else 4}", schedules=["none", "1-2", "2-3", "1-3", "0-1,2-4"],
+        requests=f"1..{3 if q else 4}", schedules=["none", "1-2", "2-3", "1-3", "0-1,2-4", "1-1 (zero length)"],
         initially_open=[True, False], queue_capacity=["unlimited", 1],
         control_events_created=["before the arrivals", "after the arrivals"])
-    fam("Batch", "Batch", _grid(batch=[1, 2, 3], svc=[0, 1], timeout=[0, 1, 2]),
+    # process_time is enumerated BELOW, AT and ABOVE the timeout: with process_time > timeout a partial batch's
+    # timeout fires while an earlier full batch is still in service
+    fam("Batch", "Batch", _grid(batch=[1, 2, 3], svc=[0, 1, 3], timeout=[0, 1, 2]),
         patterns(3 if q else 4, T3, H4, (0,)), chunks=2,
-        requests=f"1..{3 if q else 4}", batch_size=[1, 2, 3], process_ticks=[0, 1], timeout_ticks=[0, 1, 2])
+        requests=f"1..{3 if q else 4}", batch_size=[1, 2, 3], process_ticks=[0, 1, 3], timeout_ticks=[0, 1, 2],
+        relation="process_time <, =, > timeout")
+    fam("Batch-burst4", "Batch", _grid(batch=[2, 3], svc=[1, 2, 3], timeout=[1, 2]),
+        patterns(4, (0, 1), (0, 1), (0,), n_min=4), chunks=1,
+        requests="4", batch_size=[2, 3], process_ticks=[1, 2, 3], timeout_ticks=[1, 2],
+        note="arrival ticks {0,1} x hops {0,1} only: a full batch in service plus a following partial batch")
     return fams
